@@ -58,7 +58,9 @@ func (s BasicPrivateTokenRequestState) FinalizeToken(tokenResponseEnc []byte) (t
 		return tokens.Token{}, err
 	}
 
-	tokenData := append(s.tokenInput, outputs[0]...)
+	tokenData := make([]byte, 0, len(s.tokenInput)+len(outputs[0]))
+	tokenData = append(tokenData, s.tokenInput...)
+	tokenData = append(tokenData, outputs[0]...)
 	token, err := UnmarshalPrivateToken(tokenData)
 	if err != nil {
 		return tokens.Token{}, err
